@@ -1,5 +1,5 @@
 (** C19, s2.Rect.expanded by non-negative margins keeps every point: latitude side closed
-    (monotone float arithmetic, then clamped to [-pi/2,pi/2]); longitude side from Proofs/C19_S1_Expanded.v (closed; premise len_ok). *)
+    (monotone float arithmetic, then clamped to [-pi/2,pi/2]); longitude side from Proofs/C19_S1_Expanded.v (closed). *)
 From Coq Require Import ZArith Reals Floats Lra Bool List.
 From Geo Require Import Base.GoPrim Base.F64 Gen.R1 Gen.S1 Gen.S2Rect.
 From Geo Require Import Proofs.C19_R1 Proofs.C19_R2 Proofs.C19_S1 Proofs.C19_S2Rect Proofs.C19_Expanded
@@ -10,16 +10,15 @@ Theorem s2rect_expanded_sound : forall r mg lat x,
   valid_s2rect r -> vlat lat -> inrange x ->
   nonnan (s2_LatLng_Lat mg) -> 0 <= rank (s2_LatLng_Lat mg) ->
   nonnan (s2_LatLng_Lng mg) -> 0 <= rank (s2_LatLng_Lng mg) ->
-  len_ok (s1_Interval_Lo (s2_Rect_Lng r)) (s1_Interval_Hi (s2_Rect_Lng r)) (s2_LatLng_Lng mg) ->
   wf1 (r1_Interval_Expanded (s2_Rect_Lat r) (s2_LatLng_Lat mg)) ->
   mem_s2rect r lat x -> mem_s2rect (s2_Rect_expanded r mg) lat x.
 Proof.
-  intros r mg lat x V [Nlat Rlat] Hx Nm1 Hm1 Nm2 Hm2 Sf W' [M1 M2].
+  intros r mg lat x V [Nlat Rlat] Hx Nm1 Hm1 Nm2 Hm2 W' [M1 M2].
   pose proof (valid_lat_wf r V) as W. destruct V as [_ [_ [Vl _]]].
   unfold s2_Rect_expanded, s1_Angle_Radians.
   pose proof (r1_expanded_sound _ _ _ W Nm1 Hm1 Nlat W' M1) as E1.
-  pose proof (s1_expanded_sound _ _ x Vl Nm2 Hm2 Sf Hx M2) as E2.
-  pose proof (s1_expanded_valid _ _ Vl Nm2 Hm2 Sf) as V2.
+  pose proof (s1_expanded_sound _ _ x Vl Nm2 Hm2 Hx M2) as E2.
+  pose proof (s1_expanded_valid _ _ Vl Nm2 Hm2) as V2.
   rewrite (r1_mem_nonempty _ lat W' Nlat E1), (s1_mem_nonempty _ x V2 Hx E2). cbn [orb].
   split; [|exact E2]. cbn [s2_Rect_Lat].
   assert (Wf : wf1 s2_validRectLatRange) by (split; reflexivity).
